@@ -1,5 +1,5 @@
 SPECIFICATION Spec
-CONSTANTS MaxLen = 8
+CONSTANTS MaxLen = 7
           MaxDepth_ = 3
           Broken = FALSE
 INVARIANT SelectedAgree
